@@ -117,8 +117,10 @@ def extract(facts, fn, pick):
 
 
 def pick_inner(h, env):
-    ms = [m for m in H.walk(h["body"]) if H.kind(m) == "Match" and not m.get("src")
-          and A.sexpr(m["scrut"], env) == "(tuple $lhs $rhs)"]
+    def two_locals(x):
+        x = H.peel(x)
+        return H.kind(x) == "Tup" and len(x["es"]) == 2 and all(H.path_local(e) is not None for e in x["es"])
+    ms = [m for m in H.walk(h["body"]) if H.kind(m) == "Match" and not m.get("src") and two_locals(m["scrut"])]
     # the inner match over (Done(lhs), Done(rhs)) payloads is the one with the most arms
     return max(ms, key=lambda m: len(m["arms"])) if ms else None
 
